@@ -49,29 +49,29 @@ type Schedule struct {
 }
 
 type world struct {
-	ctl      *sched.Ctl
-	w        *vh.Writer
-	ln       *memnet.Listener
-	srv      *kmipserver.Server
-	cli      map[int]*memnet.Conn
-	sentk    map[int]int
-	cliWr    map[int]bool
-	cliCl    map[int]bool
-	connOf   map[uint64]int  // goroutine -> connection
-	roleOf   map[uint64]string
-	ptrConn  map[string]int // *conn pointer -> connection
-	handled  map[int][]int
-	termhk   map[int]int
-	hookOut  map[int]string // scripted connect hook outcome per connection
-	serveRes string
+	ctl               *sched.Ctl
+	w                 *vh.Writer
+	ln                *memnet.Listener
+	srv               *kmipserver.Server
+	cli               map[int]*memnet.Conn
+	sentk             map[int]int
+	cliWr             map[int]bool
+	cliCl             map[int]bool
+	connOf            map[uint64]int // goroutine -> connection
+	roleOf            map[uint64]string
+	ptrConn           map[string]int // *conn pointer -> connection
+	handled           map[int][]int
+	termhk            map[int]int
+	hookOut           map[int]string // scripted connect hook outcome per connection
+	serveRes          string
 	sdStarted, sdDone bool
-	timerFired bool
-	rnd      *rand.Rand
-	nconn    int
-	curConn  int // connection of the goroutine released last
-	pmu      sync.Mutex
-	maxReq   int
-	diverged int
+	timerFired        bool
+	rnd               *rand.Rand
+	nconn             int
+	curConn           int // connection of the goroutine released last
+	pmu               sync.Mutex
+	maxReq            int
+	diverged          int
 }
 
 func roleName(c int, r string) string { return fmt.Sprintf("%d.%s", c, r) }
@@ -190,9 +190,27 @@ func reqBytes(c, k int, out string) []byte {
 	return ttlv.MarshalTTLV(&msg)
 }
 
-// framed, but the decoder fails with an encoding error (unexpected root tag)
-func encBytes() []byte {
-	return ttlv.MarshalTTLV(&kmip.Attribute{AttributeName: "x-bad", AttributeValue: "v"})
+// framed, but the decoder fails with an encoding error: the classes of decoding failure (unexpected root tag, structure ending
+// before a required member at three depths, wrong type of a member, wrong type of the root)
+func encBytes(variant int) []byte {
+	pv := ttlv.Value{Tag: kmip.TagProtocolVersion, Value: ttlv.Struct{{Tag: kmip.TagProtocolVersionMajor, Value: int32(1)}, {Tag: kmip.TagProtocolVersionMinor, Value: int32(2)}}}
+	hdr := ttlv.Value{Tag: kmip.TagRequestHeader, Value: ttlv.Struct{pv, {Tag: kmip.TagBatchCount, Value: int32(1)}}}
+	var v any
+	switch variant % 6 {
+	case 0:
+		v = &kmip.Attribute{AttributeName: "x-bad", AttributeValue: "v"}
+	case 1:
+		v = ttlv.Value{Tag: kmip.TagRequestMessage, Value: ttlv.Struct{}}
+	case 2:
+		v = ttlv.Value{Tag: kmip.TagRequestMessage, Value: ttlv.Struct{{Tag: kmip.TagRequestHeader, Value: ttlv.Struct{pv}}}}
+	case 3:
+		v = ttlv.Value{Tag: kmip.TagRequestMessage, Value: ttlv.Struct{hdr, {Tag: kmip.TagBatchItem, Value: ttlv.Struct{{Tag: kmip.TagOperation, Value: ttlv.Enum(kmip.OperationActivate)}}}}}
+	case 4:
+		v = ttlv.Value{Tag: kmip.TagRequestMessage, Value: ttlv.Struct{{Tag: kmip.TagRequestHeader, Value: ttlv.Struct{pv, {Tag: kmip.TagBatchCount, Value: "1"}}}}}
+	default:
+		v = ttlv.Value{Tag: kmip.TagRequestMessage, Value: int32(7)}
+	}
+	return ttlv.MarshalTTLV(v)
 }
 
 // framed request whose decoding fails with a plain (non encoding) error: unsupported credential type
@@ -348,7 +366,7 @@ func (wd *world) env(act string, c int, kind string) bool {
 		case "req":
 			b = reqBytes(c, k, outcomes[wd.rnd.Intn(len(outcomes))])
 		case "enc":
-			b = encBytes()
+			b = encBytes(wd.rnd.Intn(6))
 		case "plain":
 			b = plainBytes(c, k)
 		case "resp":
